@@ -8,11 +8,15 @@
 //           script=<op>,<op>,...
 //     op = e<event id>:<primary seed>          run the event to completion (reseed first)
 //          a<event id>:<primary seed>:<k>      run k steps of the event, then abort: state reset
+//          t<event id>:<primary seed>:<k>      run at most k loops, REPORT them as an event line
+//                                              (trunc=1 if unfinished), then reset the state
 //          w                                   warm-up step
 //     After every completed event prints
 //       event id=<id> seed=<s> steps=<n delivered> hash=<fnv of the (track,step)-sorted stream>
 //             loops=<stepper iterations> res=<hash of the StepperResult sequence>
 //             adiag=<hash> sdiag=<hash> edep=<bits of the slot-order-independent deposit sum>
+//             trunc=<0|1> multisec=<iterations in which >= 2 slots produced secondaries>
+//             loophw=<high-water mark of the per-slot looping counters during the event>
 //     With dump=1 the sorted step stream itself is printed (`s <track>/<step> <fields>`).
 #include <iostream>
 
@@ -273,7 +277,9 @@ void run_script(std::map<std::string, std::string> const& kv)
             }
         }
         bool abort_ev = op[0] == 'a';
-        if ((op[0] != 'e' && op[0] != 'a') || f.size() != (abort_ev ? 3u : 2u))
+        bool trunc_ev = op[0] == 't';   // first k loops of the event are reported, rest dropped
+        if ((op[0] != 'e' && op[0] != 'a' && op[0] != 't')
+            || f.size() != ((abort_ev || trunc_ev) ? 3u : 2u))
         {
             std::cout << "bad-op\n";
             return;
@@ -285,18 +291,33 @@ void run_script(std::map<std::string, std::string> const& kv)
         step.reseed(UniqueEventId{id});
         std::uint64_t rh = h3::fnv0;
         size_type loops = 0;
+        size_type multi_sec = 0, looping_hw = 0;
         auto add = [&](StepperResult const& r) {
             rh = h3::fnv(h3::fnv(h3::fnv(h3::fnv(rh, r.generated), r.active), r.alive), r.queued);
             ++loops;
+            // evidence: iterations in which >= 2 slots produced secondaries / looping counters
+            if (state.counters().num_secondaries >= 2)
+            {
+                size_type producing = 0;
+                for (auto t : range(TrackSlotId{state.size()}))
+                    producing += state.ref().init.secondary_counts[t] > 0;
+                multi_sec += producing >= 2;
+            }
+            if (!state.ref().sim.num_looping_steps.empty())
+            {
+                for (auto t : range(TrackSlotId{state.size()}))
+                    looping_hw = std::max(looping_hw, state.ref().sim.num_looping_steps[t]);
+            }
         };
         StepperResult r = step(make_span(primaries));
         add(r);
-        while (r && loops < maxloops && !(abort_ev && loops >= f[2]))
+        while (r && loops < maxloops && !((abort_ev || trunc_ev) && loops >= f[2]))
         {
             r = step();
             add(r);
         }
-        if (abort_ev || r)
+        bool truncated = trunc_ev && r;
+        if (abort_ev || (r && !trunc_ev))
         {
             // aborted (or stuck) event: drop it, as an application does after a failure
             state.reset();
@@ -324,7 +345,10 @@ void run_script(std::map<std::string, std::string> const& kv)
                   << " res=" << vh::hex(rh, 16)
                   << " adiag=" << vh::hex(hash_map(ad->calc_actions_map()), 16)
                   << " sdiag=" << vh::hex(hash_counts(sd->calc_steps()), 16)
-                  << " edep=" << vh::hexd(edep) << "\n";
+                  << " edep=" << vh::hexd(edep) << " trunc=" << (truncated ? 1 : 0)
+                  << " multisec=" << multi_sec << " loophw=" << looping_hw << "\n";
+        if (truncated)
+            state.reset();
         if (dump)
         {
             for (auto const& s : recs)
